@@ -280,6 +280,8 @@ Definition dec_step (id : N) (kind : string) (isend : bool) (st : rstate * bool)
            end in
   match d with
   | DLine _ _ | DNl =>
+    (* a "\n" decoration: the line break is a byte of its own after what precedes it *)
+    let s := match d with DNl => set_cursor s (cursor s + 1) | _ => s end in
     let s1 := add_line s (cursor s - base s) in
     let s2 := set_cursor s1 (cursor s1 + 1) in
     (set_atnl s2 (cursor s2), false)
